@@ -80,6 +80,23 @@ def build(rng, tier):
                 rt, rn = ("runtop", "runp") if j % 2 == 1 else ("runto", "run")
                 ops = [f"eng new {inst} {pid}"] + engcheck.load_ops(inst, inp) + [f"eng {rt} {inst} {k}", f"eng dump {inst}", f"eng {rn} {inst}", f"eng dump {inst}"]
                 cases.append(engcheck.Case(pid, inst, ops, {"inp": inp, "kind": "agg-single", "k": k}))
+    # a NESTED program instance: the products in the rules of `tn` are computed by `crate::common::nested_mul`, which constructs a second #![generate_run_timeout] program and
+    # runs it to completion with run() on the calling thread (printer sugar of tools/vlib/eng.py; model and oracle multiply).  The deadline of the OUTER run_timeout belongs to
+    # that call alone: the inner run() has no deadline, whatever clock reading the outer call is at
+    tn = {"rels": [{"arity": 1}, {"arity": 2}, {"arity": 2}],
+          "rules": [{"heads": [(1, [("var", 0), ("mul", ("var", 0), ("var", 0))])], "body": [("cl", 0, [("v", 0)], [])]},
+                    {"heads": [(1, [("add", ("var", 0), 1), ("mul", ("add", ("var", 0), 1), ("add", ("var", 0), 1))])], "body": [("cl", 1, [("v", 0), ("v", 1)], []), ("if", ("lt", ("var", 0), 6))]},
+                    {"heads": [(2, [("var", 0), ("mul", ("var", 1), 2)])], "body": [("cl", 1, [("v", 0), ("v", 1)], [])]}]}
+    nnm = eng.Names(); nnm.nested_mul = True
+    progs["tn"] = tn
+    mods.append(("tn", eng.rs_module("tn", tn, nm=nnm, attrs=("generate_run_timeout",))))
+    for j in range(2 if tier == "quick" else 5):
+        r2 = rng.fork(f"tn{j}")
+        inp = {0: [(x,) for x in sorted({r2.below(4) for _ in range(r2.range(1, 2))})], 1: [], 2: []}
+        for k in range(MAXK):
+            inst = f"tn_{j}_{k}"
+            ops = [f"eng new {inst} tn"] + engcheck.load_ops(inst, inp) + [f"eng runto {inst} {k}", f"eng dump {inst}", f"eng run {inst}", f"eng dump {inst}"]
+            cases.append(engcheck.Case("tn", inst, ops, {"inp": inp, "kind": "nested-instance", "k": k}))
     # ascent_par! with #![generate_run_timeout]: the same crash points in pools of 1..8 threads; the Lean side is the parallel physical-index model under a deadline
     # (Model/EnginePhysParTimeout.lean, `eng runtopp <inst> <k> <threads>`, then `eng runpp`): concurrent indices, frozen / unfrozen protocol also on the early return
     if os.path.exists(os.path.join(core.LEAN, "AscentVerif", "Model", "EnginePhysParTimeout.lean")):
